@@ -4,7 +4,7 @@
 From Coq Require Import ZArith Reals List Lra Lia.
 From Coquelicot Require Import Coquelicot.
 From FF Require Import Base.Ops Inst.RInst Inst.Param Base.RAlg Model.Numeric Model.SecondOrder Model.Consts
-     Model.Tie.C10 Proofs.Foi Proofs.SecondOrder Proofs.SecondOrderAsm Proofs.SecondOrderBound Proofs.SecondOrderInt Proofs.SecondOrderGlue Proofs.SecondOrderF2Bound Proofs.SecondOrderTrace Proofs.SecondOrderHerm Proofs.SecondOrderEncl Proofs.CMBase Corr.ObsC10.
+     Model.Tie.C10 Proofs.Foi Proofs.SecondOrder Proofs.SecondOrderAsm Proofs.SecondOrderBound Proofs.SecondOrderInt Proofs.SecondOrderGlue Proofs.SecondOrderF2Bound Proofs.SecondOrderScaling Proofs.Invariance Proofs.SecondOrderTrace Proofs.SecondOrderHerm Proofs.SecondOrderEncl Proofs.CMBase Corr.ObsC10.
 Import ListNotations.
 Local Open Scope R_scope.
 
@@ -143,6 +143,28 @@ Theorem C10_F2_assembly : forall d thr thr2 omega basis nopers evs Vs Qs ncoeffs
 Proof. exact F2_assembly. Qed.
 Print Assumptions C10_F2_assembly.
 
+(* Amplification of evaluation errors: the case formulas only divide by denominators with |x T| > thr2, so buffers
+   known to within u T move the value by at most 2 u T^2 / thr2 (the second term of the error budget of an entry). *)
+Theorem C10_case1_amplification : forall thr2 u T b (f1 f2 f1' f2' : Cx), 0 < thr2 -> 0 <= T -> 0 <= u -> thr2 < Rabs (b * T) ->
+  Rabs (fst f1' - fst f1) <= u * T -> Rabs (snd f1' - snd f1) <= u * T ->
+  Rabs (fst f2' - fst f2) <= u * T -> Rabs (snd f2' - snd f2) <= u * T ->
+  Rabs (fst (case1_of f1' f2' b) - fst (case1_of f1 f2 b)) <= 2 * u * (T * T) / thr2 /\
+  Rabs (snd (case1_of f1' f2' b) - snd (case1_of f1 f2 b)) <= 2 * u * (T * T) / thr2.
+Proof. exact case1_amplification. Qed.
+Theorem C10_case2_amplification : forall thr2 u T a (f1 ex f1' ex' : Cx), 0 < thr2 -> 0 <= T -> 0 <= u -> thr2 < Rabs (a * T) ->
+  Rabs (fst f1' - fst f1) <= u * T -> Rabs (snd f1' - snd f1) <= u * T ->
+  Rabs (fst ex' - fst ex) <= u * T -> Rabs (snd ex' - snd ex) <= u * T ->
+  Rabs (fst (case2_of f1' ex' a) - fst (case2_of f1 ex a)) <= 2 * u * (T * T) / thr2 /\
+  Rabs (snd (case2_of f1' ex' a) - snd (case2_of f1 ex a)) <= 2 * u * (T * T) / thr2.
+Proof. exact case2_amplification. Qed.
+(* ... where case1_of / case2_of applied to the exact buffers are the model's case formulas *)
+Theorem C10_soi_cases_of_buffers : forall (m1 m2 : bool) a b ab T,
+  soi_cases_of RO m1 m2 a b ab T =
+  cite RO m1 (case1_of (frc RO a T) (frc RO ab T) b)
+       (cite RO m2 (case2_of (frc RO a T) (cscal RO T (cexp' (a * T))) a) (T * T / 2, 0)).
+Proof. exact soi_cases_of_buffers. Qed.
+Print Assumptions C10_case1_amplification.
+
 (* Without any condition on the second-order denominators: the code's model (threshold thr2) against the
    exact-selection model (thr2 = 0), and hence against the double integral, within
    F2_eps = sum_g 2 thr2 dt_g^2 (1/2 + thr2/4) A_g[a,k] A_g[b,l],  A_g[a,k] = sum_ij |X^g_ak(i,j)|. *)
@@ -181,6 +203,36 @@ Theorem C10_F2_near_integral : forall d thr thr2 omega basis nopers evs Vs Qs nc
     Cmod (csub' (a5get RO F2 a b k l o) z) <= F2_eps d thr2 a b k l segs.
 Proof. exact F2_near_integral. Qed.
 Print Assumptions C10_F2_near_integral.
+
+(* Change of the time unit (durations x lam, energies and frequencies / lam): the masks |x dt| > thr2 are
+   dimensionless, so the segment integral and every entry of F2 scale EXACTLY by lam^2, for every threshold. *)
+Theorem C10_time_scaling_soi_entry : forall thr2 w ei ej em en T lam, 0 < lam ->
+  soi_entry RO thr2 (w / lam) (ei / lam) (ej / lam) (em / lam) (en / lam) (lam * T) =
+  cscal RO (lam * lam) (soi_entry RO thr2 w ei ej em en T).
+Proof. exact time_scaling_soi_entry. Qed.
+Print Assumptions C10_time_scaling_soi_entry.
+
+Theorem C10_time_scaling_F2 : forall d lam, 0 < lam -> forall thr thr2 omega basis nopers a b k l o,
+  (a < length nopers)%nat -> (b < length nopers)%nat -> (k < length basis)%nat -> (l < length basis)%nat ->
+  (o < length omega)%nat ->
+  forall evs Vs Qs ncoeffs dts ts,
+  length evs = length dts -> length Vs = length dts ->
+  (length dts <= length Qs)%nat -> (length dts <= length ts)%nat -> length ncoeffs = length nopers ->
+  a5get RO (second_order_ff RO d thr thr2 (map (sdiv lam) evs) Vs Qs (sdiv lam omega) basis nopers ncoeffs
+                            (smul lam dts) (smul lam ts) (None, None)) a b k l o =
+  cscal RO (lam * lam)
+    (a5get RO (second_order_ff RO d thr thr2 evs Vs Qs omega basis nopers ncoeffs dts ts (None, None)) a b k l o).
+Proof. exact time_scaling_F2. Qed.
+Print Assumptions C10_time_scaling_F2.
+
+(* ... with masks in absolute units (|x| > thr2: the seeded mutant, the shape of the first-order defect 0b2b5e4)
+   the law fails: thr2 = 1e-8, a = 0, b = 1, T = 1, time unit x 1e9 *)
+Theorem C10_time_scaling_soi_refuted_absolute_mask :
+  exists thr2 a b T lam, 0 < lam /\ 0 < thr2 /\
+    soi_core_absmask thr2 (a / lam) (b / lam) ((a + b) / lam) (lam * T)
+    <> cscal RO (lam * lam) (soi_core_absmask thr2 a b (a + b) T).
+Proof. exact time_scaling_soi_refuted_absolute_mask. Qed.
+Print Assumptions C10_time_scaling_soi_refuted_absolute_mask.
 
 (* The time-domain control matrix of the statements above in trace form:
    beta_ak(u) = s_a tr( U(u)^dagger N_a U(u) C_k ), U(u) = V e^{-iDu} V^dagger Q (no unitarity assumed). *)
